@@ -33,9 +33,10 @@ References == {"lasso_sklearn", "lasso_celer", "enet_sklearn", "lasso_positive_s
                "logreg_l1_sklearn", "svc_sklearn", "multitask_sklearn", "grouplasso_celer",
                "quantile_linprog", "sqrtlasso_fixedpoint"}
 RefSolvers(r) ==
-  CASE r \in {"lasso_sklearn", "lasso_celer"} -> {"AndersonCD", "AndersonCD_fixpoint", "GramCD", "GramCD_acc", "FISTA", "ProxNewton", "Lasso"}
+  CASE r \in {"lasso_sklearn", "lasso_celer"} -> {"AndersonCD", "AndersonCD_fixpoint", "GramCD", "GramCD_acc", "FISTA", "ProxNewton", "Lasso",
+                                                   "GramCD_warm", "AndersonCD_warm", "FISTA_warm"}
     [] r = "enet_sklearn" -> {"AndersonCD", "GramCD", "FISTA", "ElasticNet"}
-    [] r = "lasso_positive_sklearn" -> {"AndersonCD", "GramCD", "FISTA", "Lasso"}
+    [] r = "lasso_positive_sklearn" -> {"AndersonCD", "GramCD", "FISTA", "Lasso", "GramCD_warm"}
     [] r = "enet_positive_sklearn" -> {"AndersonCD", "ElasticNet"}
     [] r = "logreg_l1_sklearn" -> {"ProxNewton", "AndersonCD", "FISTA", "SparseLogisticRegression"}
     [] r = "svc_sklearn" -> {"AndersonCD", "FISTA", "LinearSVC"}
